@@ -1,4 +1,5 @@
 import IbModel.Model.Window
+import IbModel.Generated.Tables
 import IbModel.Proofs.Window
 import IbModel.Proofs.WindowEngine
 /-!
@@ -978,5 +979,18 @@ example : groupByWindow 10 25 (sourceParts [⟨7, 70⟩, ⟨27, 71⟩, (⟨8, 72
       = some [(⟨5, 15⟩, [70, 72]), (⟨25, 35⟩, [71])] ∧
     groupByKeyAndWindow 10 25 [[((1 : Int), ⟨7, 70⟩), (2, ⟨8, 71⟩), (1, (⟨9, 72⟩ : Timestamped Int))]]
       = some [((1, ⟨5, 15⟩), [70, 72]), ((2, ⟨5, 15⟩), [71])] := by decide
+
+/-- Census obligation (round 5; `helperOpTable` is re-read from the running code on every run): the operators the two
+    `key_by_window` builders insert do NOT claim the planner's value-only reorder contract, so a fused block that
+    holds a windowing step is executed as written (`Props/C03.lean::helper_pinned`); the model's `key_by_window`
+    (an ordinary `map`) then describes what runs. A windowing operator that claimed the flags would be sorted among
+    neighbouring `map_values` / `filter_values` steps by cost hint and meet rows of the wrong type. Driver request
+    `WGROUP kkbwv` runs exactly such a neighbourhood on the real engine. -/
+theorem windowing_steps_not_movable :
+    ∀ e ∈ IB.Generated.helperOpTable, (e.1 = "key_by_window" ∨ e.1 = "key_by_window:keyed") →
+      (e.2.valueOnly && e.2.keyPreserving && e.2.reorderSafe) = false := by decide
+
+example : (IB.Generated.helperOpTable.filter fun e => e.1 == "key_by_window" || e.1 == "key_by_window:keyed").length = 2 := by
+  decide
 
 end IB.Window
